@@ -42,6 +42,10 @@ Definition std_ext : string -> list val -> option val := fun f args =>
       | None => Some (VTuple [VInt 0; VInt 0])
       end
   | "slices.Clip", [VInts buf] => Some (VInts buf)
+  | "binary.PutUvarint", [VInts buf; VInt x] =>      (* panics in Go when buf is too short: not answered here *)
+      let enc := zs (uvarint (Z.to_N x)) in
+      if (List.length enc <=? List.length buf)%nat
+      then Some (VTuple [VInt (Z.of_nat (List.length enc)); VInts (blit buf O enc)]) else None
   | _, _ => None
   end.
 
@@ -61,6 +65,7 @@ Hypothesis prog_Bitmap_Set : plookup "Bitmap.Set" prog = Some fn_Bitmap_Set.
 Hypothesis prog_Bytes : plookup "OffsetAndSizeAndSlot.Bytes" prog = Some fn_OffsetAndSizeAndSlot_Bytes.
 Hypothesis prog_ReadUvarint : plookup "uvarintReader.ReadUvarint" prog = Some fn_uvarintReader_ReadUvarint.
 Hypothesis prog_ReadByte : plookup "uvarintReader.ReadByte" prog = Some fn_uvarintReader_ReadByte.
+Hypothesis prog_encodeUvarint : plookup "encodeUvarint" prog = Some fn_encodeUvarint.
 
 (* ------------------------------------------------------------------ Bytes *)
 Definition oas_val (e : entry) : val :=
@@ -206,6 +211,36 @@ Proof.
     (destruct (Z.ltb_spec i 0) as [Hx|_]; [lia|]); go_run.
   - fold (set_formula (Z.of_N b) i true). rewrite Hs. reflexivity.
   - fold (set_formula (Z.of_N b) i false). rewrite Hc. reflexivity.
+Qed.
+
+(* ------------------------------------------------------------------ encodeUvarint (the record length prefix) *)
+Lemma uv_enc_length_le f x : (List.length (uv_enc f x) <= S f)%nat.
+Proof.
+  revert x. induction f as [|f IH]; intros x; cbn [uv_enc]; [cbn; lia|].
+  destruct (x <? 128)%N; cbn [List.length]; [lia|]. specialize (IH (x / 128)%N). lia.
+Qed.
+
+Lemma blit_then_firstn : forall (l s : list Z), (List.length s <= List.length l)%nat ->
+  firstn (List.length s) (blit l O s) = s.
+Proof.
+  induction l as [|h t IH]; intros s H; destruct s as [|x xs]; cbn [List.length] in H; try reflexivity; [lia|].
+  cbn [blit firstn List.length]. rewrite IH by lia. reflexivity.
+Qed.
+
+Theorem encodeUvarint_is_uvarint fuel (n : N) :
+  call prog std_ext fuel "encodeUvarint" [VInt (Z.of_N n)] = RRet (VInts (zs (uvarint n))).
+Proof.
+  unfold call. rewrite prog_encodeUvarint. unfold fn_encodeUvarint. cbn [f_params f_body bind_params]. go_run.
+  unfold std_ext at 1. rewrite N2Z.id.
+  pose proof (uv_enc_length_le 9 n) as Hl. fold (uvarint n) in Hl.
+  assert (Hz : List.length (zs (uvarint n)) = List.length (uvarint n)) by (unfold zs; apply map_length).
+  rewrite Hz. cbn [List.length].
+  destruct (Nat.leb_spec (List.length (uvarint n)) 10) as [_|Hc]; [|lia].
+  go_run. rewrite zlen_blit. go_consts.
+  assert (Hb : (0 <=? Z.of_nat (List.length (uvarint n))) && (Z.of_nat (List.length (uvarint n)) <=? 10) = true).
+  { rewrite !andb_true_iff. split; apply Z.leb_le; lia. }
+  rewrite Hb. go_cbn. unfold slice_z. rewrite Z.sub_0_r, Nat2Z.id. cbn [Z.to_nat skipn].
+  rewrite <- Hz. rewrite blit_then_firstn by (rewrite Hz; cbn [List.length]; lia). reflexivity.
 Qed.
 
 End Generic.
